@@ -289,6 +289,20 @@ Proof.
   cbn [run_acts act_res]. destruct (bw_flush s1) as [[|] s2]; reflexivity.
 Qed.
 
+(* A record whose encoder fails half-way leaves (part of) its bytes pending; the next
+   successful append puts its own record, whole and contiguous, right after them: on disk are
+   the old content, the pending bytes of earlier calls, the failed record's bytes, the record. *)
+Lemma write_chunks_ext : forall c cs st s1,
+    write_chunks c cs st = Ok s1 -> ext (rec_bytes cs) true st s1.
+Proof.
+  intros c cs st s1 H.
+  pose proof (run_acts_chunks c cs [] st) as R. rewrite H in R. cbn [run_acts] in R.
+  rewrite app_nil_r in R. apply run_acts_ext in R.
+  assert (E : acts_bytes (map Write cs) = rec_bytes cs).
+  { unfold acts_bytes, rec_bytes. rewrite map_map. cbn [act_bytes]. rewrite map_id. reflexivity. }
+  rewrite E in R. exact R.
+Qed.
+
 Lemma run_acts_flush_last : forall c l st st',
     run_acts c (l ++ [Flush]) st = (true, st') -> buf st' = [].
 Proof.
@@ -313,6 +327,19 @@ Proof.
 Qed.
 
 (* ---- headline 2: at every point inside a call the disk is old ++ prefix ---- *)
+Theorem failed_encode_then_append : forall c st cs r s1 st2,
+    write_chunks c cs st = Ok s1 ->
+    append_enc_fails c st cs = Err s1 /\
+    (append c s1 r = Ok st2 ->
+     disk st2 = disk st ++ buf st ++ rec_bytes cs ++ rec_bytes r /\ buf st2 = []).
+Proof.
+  intros c st cs r s1 st2 H. split; [unfold append_enc_fails; rewrite H; reflexivity|].
+  intros Ha. destruct (write_chunks_ext c cs st s1 H) as (w & r' & Hd & Hw & Hb).
+  destruct (append_flushes_whole_record c s1 r st2 Ha) as [D B]. split; [|exact B].
+  rewrite D, Hd, (Hb eq_refl), <- !app_assoc. f_equal.
+  rewrite app_assoc, Hw, <- app_assoc. reflexivity.
+Qed.
+
 Lemma prefix_at_all_times : forall c st cs j ok st',
     run_acts c (firstn j (block_of cs)) st = (ok, st') ->
     exists p, disk st' = disk st ++ p /\ prefix p (buf st ++ rec_bytes cs).
